@@ -461,4 +461,91 @@ theorem phase4_restores {f : File} (hfs : f.compound = false) (A : List Nat) (r 
   simp only [hget]
   exact restore_moves hfs shards _ hcnt hex hb.1 hb.2
 
+/-! ### the trash in phases 4 and 5 -/
+
+theorem tkept_cons {f x : File} {fs : List File} (hk : TKept f fs) : TKept f (x :: fs) := by
+  obtain ⟨g, hg, hb, hr⟩ := hk; exact ⟨g, List.mem_cons_of_mem _ hg, hb, hr⟩
+
+theorem tkept_moveOne_any_off {f : File} {d : Dir} {s : Shard} (toTrash : Bool) (h : Off f s) (hk : TKept f d.trash) :
+    TKept f (moveOne toTrash d s).trash := by
+  unfold moveOne
+  cases toTrash
+  · simp only [Bool.false_eq_true, if_false]
+    split
+    · exact tkept_rmBase (fun e => h ⟨e.1, e.2⟩) hk
+    · split
+      · exact hk
+      · exact tkept_rmBase (fun e => h ⟨e.1, e.2⟩) hk
+  · simp only [if_true]
+    split
+    · exact tkept_rmBase (fun e => h ⟨e.1, e.2⟩) hk
+    · split
+      · exact tkept_rmBase (fun e => h ⟨e.1, e.2⟩) hk
+      · exact tkept_cons (tkept_rmBase (fun e => h ⟨e.1, e.2⟩) hk)
+
+theorem tkept_moveAll_any_off {f : File} (toTrash : Bool) (shards : List Shard) (d : Dir) (h : ∀ s ∈ shards, Off f s)
+    (hk : TKept f d.trash) : TKept f (moveAll toTrash d shards).trash := by
+  induction shards generalizing d with
+  | nil => exact hk
+  | cons s r ih =>
+    simp only [moveAll, List.foldl_cons]
+    exact ih _ (fun s' hs' => h s' (by simp [hs'])) (tkept_moveOne_any_off toTrash (h s (by simp)) hk)
+
+theorem tkept_phase4 {f : File} (A : List Nat) (trash1 : SMap) (tombs : List (Nat × Shard)) (d : Dir) (index1 : SMap)
+    (hoff : ∀ id ∈ A, ∀ sh, mapGet trash1 id = some sh → ∀ s ∈ sh, Off f s) (hk : TKept f d.trash) :
+    TKept f (phase4 A trash1 tombs d index1).1.trash := by
+  have gen : ∀ (l : List Nat) (acc : Dir × SMap), (∀ id ∈ l, id ∈ A) → TKept f acc.1.trash →
+      TKept f (l.foldl (restoreOne trash1 tombs) acc).1.trash := by
+    intro l
+    induction l with
+    | nil => exact fun _ _ h => h
+    | cons id r ih =>
+      intro acc hl h
+      simp only [List.foldl_cons]
+      apply ih _ (fun id' h' => hl id' (by simp [h']))
+      unfold restoreOne
+      simp only []
+      cases hg : mapGet trash1 id with
+      | some sh => simp only []; exact tkept_moveAll_any_off false sh acc.1 (hoff id (hl id (by simp)) sh hg) h
+      | none =>
+        simp only []
+        cases mapGet tombs id with
+        | some s => exact h
+        | none => exact h
+  exact gen A (d, index1) (fun _ h => h) hk
+
+theorem tkept_phase5 {f : File} (now : Int) (merging : Bool) (rest : SMap) (d : Dir)
+    (hin : ∀ e ∈ rest, ∀ s ∈ e.2, s.inTrash = false) (hoff : ∀ e ∈ rest, ∀ s ∈ e.2, Off f s) (hk : TKept f d.trash) :
+    TKept f (phase5 now merging rest d).trash := by
+  unfold phase5
+  induction rest generalizing d with
+  | nil => exact hk
+  | cons e r ih =>
+    simp only [List.foldl_cons]
+    apply ih _ (fun e' he' => hin e' (by simp [he'])) (fun e' he' => hoff e' (by simp [he']))
+    -- one entry
+    have touchAll : ∀ (l : List Shard) (d : Dir), (∀ s ∈ l, s.inTrash = false) → (l.foldl (fun d s => chtimes d s now) d).trash = d.trash := by
+      intro l
+      induction l with
+      | nil => exact fun _ _ => rfl
+      | cons s r ih2 =>
+        intro d hl
+        simp only [List.foldl_cons]
+        rw [ih2 _ (fun s' hs' => hl s' (by simp [hs'])), (chtimes_facts d s now).2.2.2.2 (hl s (by simp))]
+    unfold trashOne
+    simp only []
+    have ht := touchAll e.2 d (hin e (by simp))
+    generalize e.2.foldl (fun d s => chtimes d s now) d = d1 at ht
+    have hk1 : TKept f d1.trash := by rw [ht]; exact hk
+    have hmove := tkept_moveAll_any_off true e.2 d1 (hoff e (by simp)) hk1
+    cases merging
+    · simp only [Bool.false_eq_true, if_false]; exact hmove
+    · simp only [if_true]
+      unfold maybeSetTombstone
+      split
+      · split
+        · simp only [if_true]; exact hk1
+        · simp only [Bool.false_eq_true, if_false]; exact hmove
+      · simp only [Bool.false_eq_true, if_false]; exact hmove
+
 end ZoektModel.C32
